@@ -300,6 +300,49 @@ func checkC08(w *core.W) {
 		}
 	}
 
+	// tokenComments: a comment (and newline) at EVERY inter-token blank of the printed program,
+	// not only around complete sub-expressions (e.g. between a let pattern and its `=`).
+	tokenComments := func(src string) {
+		cat := func(r byte) string {
+			switch {
+			case r == '_' || r == '$' || r == '@' || r == '.' || r >= '0' && r <= '9' || r >= 'a' && r <= 'z' || r >= 'A' && r <= 'Z':
+				return "w"
+			}
+			return string(r)
+		}
+		var inStr byte
+		for i := 0; i < len(src); i++ {
+			ch := src[i]
+			if inStr != 0 {
+				if ch == '\\' {
+					i++
+				} else if ch == inStr {
+					inStr = 0
+				}
+				continue
+			}
+			if ch == '"' || ch == '\'' || ch == '`' {
+				inStr = ch
+				continue
+			}
+			if ch == ' ' && i > 0 && i+1 < len(src) && src[i-1] != ' ' && src[i+1] != ' ' {
+				// the word before the blank, when it is a keyword, names the position (let, cond, where, ...)
+				j := i
+				for j > 0 && cat(src[j-1]) == "w" {
+					j--
+				}
+				prev := cat(src[i-1])
+				if w := src[j:i]; prev == "w" {
+					switch w {
+					case "let", "cond", "where", "orderby", "rank", "nest", "count", "if", "else", "with", "without":
+						prev = w
+					}
+				}
+				compare("R4-comment-at-token-boundary", prev+"_"+cat(src[i+1]), src, src[:i]+" # c\n"+src[i+1:], true)
+			}
+		}
+	}
+
 	// ---------- family G: general programs x every rewrite at every position ----------
 	for _, g := range c08grammars(w.Thorough) {
 		g := g
@@ -311,7 +354,12 @@ func checkC08(w *core.W) {
 				continue
 			}
 			t := t
-			w.Case(func() string { return "G:" + g.Name + " ## " + c08util.Min(t) }, func() { perProgram(g.Name, t, opts) })
+			w.Case(func() string { return "G:" + g.Name + " ## " + c08util.Min(t) }, func() {
+				perProgram(g.Name, t, opts)
+				if g.Name == "bind" || g.Name == "lazy" || w.Thorough {
+					tokenComments(c08util.Min(t))
+				}
+			})
 		}
 	}
 
@@ -324,6 +372,7 @@ func checkC08(w *core.W) {
 		t := t
 		w.Case(func() string { return "S:seed ## " + c08util.Min(t) }, func() {
 			perProgram("seeds", t, c08util.Options{R1: true, R2: true, R3: true, R4: true, R6: true, R4Space: true, R4Leaves: 2})
+			tokenComments(c08util.Min(t))
 		})
 	}
 
@@ -375,7 +424,7 @@ func checkC08(w *core.W) {
 
 var C08 = core.Check{
 	ID: "C08", Level: "exploration", Fn: checkC08, Watchdog: 60 * time.Second,
-	Rule: "family G: every closed, well-scoped program of five small grammars (bind: let/\\/call/->/+ over {1,2},{x,y}, <=5 nodes quick, <=6 thorough; coll: => >> :> where, prefix =>, .a, count, displays over 4 literals, <=4 (+ a 3-arrow sub-grammar <=5 thorough); fnarrow: function literals and names right of => where ->, <=5; sugar: set/array/tuple/dict displays over 7 (11) literals incl. string, array, dict, true, <=4 (+4 literals <=5 thorough); lazy: cond && || (if thorough) with let, .a, <, <=5 (6)) x EVERY applicable rewrite at EVERY position: R1 let = arrow = apply, R2 sugar = set of tuples = relation literal (literals, array/dict displays with computed parts, sets of tuples), R3 implicit \\. = explicit \\. = fresh name, omitted lhs = `.`, R4 parentheses around every node and comment (+ blanks thorough) around every compound node, R5 minimal vs full parentheses, R6 capture-avoiding substitution of a let-bound value (syntactic value, or closed rhs that evaluates), R7 every unselected cond/&&/||/if branch replaced by a failing expression. family S: 40 fixed larger programs (curried calls, chained tails, shadowing closures, nested implicit binders, destructuring patterns) x the same rewrites. family L: 22 sugared literal spellings (quotes, escapes, sparse/nested arrays, bytes, dicts, true/false) x 4 contexts vs hand-written spelled-out forms. family P: every ordered pair of operator constructors (24 quick: 1-2 per level of the table; 66 thorough: every operator of the table) x every operand hole x all assignments of 2 (3) typed leaves per hole, minimal parentheses by the documented table vs fully parenthesised. Both sources are compiled and evaluated by the implementation and compared by denotation (obs.Denote encoding; functions by application to 5 arguments, two levels deep); a pair agrees iff both fail or both yield equal denotations. non-trivial = the two sources differ textually and at least one of them evaluates to a value",
+	Rule: "family G: every closed, well-scoped program of five small grammars (bind: let/\\/call/->/+ over {1,2},{x,y}, <=5 nodes quick, <=6 thorough; coll: => >> :> where, prefix =>, .a, count, displays over 4 literals, <=4 (+ a 3-arrow sub-grammar <=5 thorough); fnarrow: function literals and names right of => where ->, <=5; sugar: set/array/tuple/dict displays over 7 (11) literals incl. string, array, dict, true, <=4 (+4 literals <=5 thorough); lazy: cond && || (if thorough) with let, .a, <, <=5 (6)) x EVERY applicable rewrite at EVERY position: R1 let = arrow = apply, R2 sugar = set of tuples = relation literal (literals, array/dict displays with computed parts, sets of tuples), R3 implicit \\. = explicit \\. = fresh name, omitted lhs = `.`, R4 parentheses around every node and comment (+ blanks thorough) around every compound node, and a comment at every inter-token blank of the printed program (bind, lazy and seed programs; all thorough), R5 minimal vs full parentheses, R6 capture-avoiding substitution of a let-bound value (syntactic value, or closed rhs that evaluates), R7 every unselected cond/&&/||/if branch replaced by a failing expression. family S: 40 fixed larger programs (curried calls, chained tails, shadowing closures, nested implicit binders, destructuring patterns) x the same rewrites. family L: 22 sugared literal spellings (quotes, escapes, sparse/nested arrays, bytes, dicts, true/false) x 4 contexts vs hand-written spelled-out forms. family P: every ordered pair of operator constructors (24 quick: 1-2 per level of the table; 66 thorough: every operator of the table) x every operand hole x all assignments of 2 (3) typed leaves per hole, minimal parentheses by the documented table vs fully parenthesised. Both sources are compiled and evaluated by the implementation and compared by denotation (obs.Denote encoding; functions by application to 5 arguments, two levels deep); a pair agrees iff both fail or both yield equal denotations. non-trivial = the two sources differ textually and at least one of them evaluates to a value",
 	Assume: []string{
 		"the precedence/associativity specification is the table of DESIGN.md Appendix A (transcribed from rule expr of syntax/arrai.wbnf at the pinned commit), carried as data in harness/c08util/print.go",
 		"`. where`, `. & x`, `. | x |` lex as attribute access/projection: the printer parenthesises a left operand ending in the name `.` before such operators (lexical, outside the table)",
